@@ -147,7 +147,8 @@ structure Workers where
 deriving Repr
 
 /-- What `_executor_args` is compared on: the two argument sets of the `Parallel` objects (they differ in
-`mmap_mode`: `k % 2`) and the bare arguments `abort_everything` re-configures with. -/
+`mmap_mode`: `k % 2`); `default` = the bare arguments `abort_everything` re-configured with before /repo 7487594
+(no longer produced by any operation). -/
 inductive Args where
   | parity (b : Nat)
   | default
@@ -601,7 +602,8 @@ def parentStep (cfg : Cfg) (s : State) : Op → State × Status
         else
           let s := terminateExecutor cfg s w true                     -- self._workers.terminate(kill_workers=True)
           let s := { s with backend := assocDel s.backend k }
-          (if ensureReady then getExecutor s .default (some 1000000) k else s, .ok)
+          -- self.configure(n_jobs, parallel, **self.parallel._backend_kwargs)  (/repo 7487594: P[k]'s own arguments)
+          (if ensureReady then getExecutor s (.parity (k % 2)) cfg.maxNbytes k else s, .ok)
   | .execTerminate kill =>
     match s.executor with
     | none => (s, .skip)
